@@ -46,6 +46,9 @@ def run(ctx):
     triples = gen_triples(ctx, 300 if ctx.quick else 8000)
     # corpus: the defects seen at design time
     triples = [(1, 0.0, 0.12), (1, 0.12, 0.0), (0, 1.0, 0.75), (2, 5.0, 4.9)] + triples
+    # long catch-up moves: tens of thousands of steps in one go (rounding must not accumulate)
+    longs = [(0, 0.0, 3000.0), (0, 10000.0, 0.0), (4, 1000.0, 1030.0), (1, -250.0, 1250.0 + ctx.rng.random())]
+    triples = triples + (longs if ctx.quick else longs + [(0, 0.0, 10000.0), (3, 0.0, -65536.5), (5, 7.25, 9000.0)])
     drv = core.Driver()
     for k, cur, tgt in triples:
         drv.add({"op": "plan", "arith": "float", "maxdt": rh.fbits(rh.MAXDTS[k]), "cur": rh.fbits(cur), "out": rh.fbits(tgt)})
@@ -67,7 +70,8 @@ def run(ctx):
                 runs[f"cpp[{rh.COMBOS[combo]}]"] = [rh.bitsf(c[2:]) for c in cpp[combo][i][0]]
         multiple = abs((tgt - cur) / m - round((tgt - cur) / m)) < 1e-12
         for name, got in runs.items():
-            case = {"runtime": name, "max_dt": m, "current": cur, "target": tgt, "steps": got}
+            case = {"runtime": name, "max_dt": m, "current": cur, "target": tgt,
+                    "steps": got if len(got) <= 50 else {"n": len(got), "first": got[:3], "last": got[-3:]}}
             ctx.case(case, nontrivial=(tgt < cur) or not multiple or m != 0.1)
             ctx.count("dir=" + ("backward" if tgt < cur else "equal" if tgt == cur else "forward"))
             ctx.count(f"max_dt={m}"); ctx.count("multiple" if multiple else "non-multiple")
@@ -79,7 +83,41 @@ def run(ctx):
                 ctx.fail(f"plan:{rt}:{direction}:max_dt={'default' if m == 0.1 else 'other'}", f"{name}: {bad}", case)
             elif got != want:
                 ctx.broke(f"correspondence:plan ({name} vs Lean floatTime plan, bit-exact)", {"model": want, "impl": got}, case)
+    two_segment_ticks(ctx, exe)
     return core.finish(ctx, audit, NOTE, RULE, PARTIAL)
+
+
+def two_segment_ticks(ctx, exe):
+    """a tick with one reading, then a second tick: every segment (held -> reading -> output -> next output) must satisfy the
+    clauses on its own, in particular start from the time the estimate was actually held at"""
+    cases = []
+    for _ in range(40 if ctx.quick else 600):
+        k = ctx.rng.randrange(len(rh.MAXDTS))
+        m = rh.MAXDTS[k]
+        t0 = ctx.rng.randint(-8, 8) / 8
+        ts = t0 + m * ctx.rng.randint(-30, 50) / 10
+        o1 = t0 + m * ctx.rng.randint(-30, 50) / 10
+        o2 = t0 + m * ctx.rng.randint(-30, 50) / 10
+        cases.append((k, t0, [{"out": o1, "readings": [(ts, 0)]}, {"out": o2, "readings": []}]))
+    runs = {"python": [rh.py_history(rh.MAXDTS[k], t0, h)["outs"] for k, t0, h in cases]}
+    if exe:
+        for c in rh.COMBOS:
+            runs[f"cpp[{rh.COMBOS[c]}]"] = rh.cpp_run(exe, [(rh.NCOMBO * k + c, t0, h) for k, t0, h in cases])
+    for name, outs_all in runs.items():
+        for (k, t0, h), outs in zip(cases, outs_all):
+            m = rh.MAXDTS[k]
+            ts, o1, o2 = h[0]["readings"][0][0], h[0]["out"], h[1]["out"]
+            seg1 = rh.segments_of(outs[0])            # [held -> ts], [ts -> o1]
+            seg2 = rh.segments_of(outs[1])            # log of tick 2 = [held->ts], [ts -> o2] (the held state is at ts)
+            case = {"runtime": name, "max_dt": m, "t0": t0, "reading_at": ts, "outputs": [o1, o2]}
+            ctx.case(case, True); ctx.traces += 1; ctx.count("stream=two-segment-ticks")
+            checks = [(t0, ts, seg1[0] if seg1 else []), (ts, o1, seg1[1] if len(seg1) > 1 else []), (ts, o2, seg2[1] if len(seg2) > 1 else [])]
+            for cur, tgt, dts in checks:
+                bad = rh.plan_oracle(m, cur, tgt, dts)
+                if bad:
+                    rt = "python" if name == "python" else "cpp"
+                    ctx.fail(f"plan:{rt}:sequence", f"{name}: segment {cur!r} -> {tgt!r} of a two-tick history: {bad}", dict(case, segment=[cur, tgt], steps=dts))
+                    break
 
 
 def replay(ctx, data):
